@@ -58,6 +58,15 @@ class CmdScenario(wfscn.ProgScenario):
 
     def _note_history(self, kind):
         h = env.W.extra.setdefault('hist', [])
+        if kind.startswith(('stop', 'pause')):
+            # overlap mode: the command commits while another engine
+            # transaction has read the execution but not yet written
+            open_tx = any(not a.done and a.obs and a.obs[-1][:1] == ['rp']
+                          for a in env.W.acts)
+            tag = '%s-committed-inside-an-engine-transaction-that-had-' \
+                  'only-read' % kind.split(':')[0].split('_')[0]
+            if open_tx and tag not in h:
+                h.append(tag)
         if kind in ('stop:CANCELLED', 'stop_sub:CANCELLED'):
             n = q("select count(*) from task_executions_v2 "
                   "where state='IDLE' and type='WORKFLOW'")[0][0]
